@@ -11,7 +11,12 @@
 #include <algorithm>
 
 using namespace hfsm2::detail;
-static long mismatches = 0, cases = 0, steps = 0;
+static long mismatches = 0, cases = 0, steps = 0, breaks = 0;
+#ifdef HFSM2_VERIF
+// assertion / HFSM2_BREAK hits (HFSM2_VERIF hook): counted and printed for information (emplace on a full pool is a
+// documented HFSM2_BREAK() site); what is judged are the results, against spec/Containers.tla
+extern "C" void hfsm2_verif_break(const char* file, int line) noexcept { ++breaks; if (breaks <= 10) printf("BREAK %s:%d\n", file, line); }
+#endif
 static void bad(long line, int step, const char* what) { ++mismatches; if (mismatches <= 30) printf("MISMATCH line %ld step %d: %s\n", line, step, what); }
 
 // P cap nops {E | C | R k} | per op: ok count n values..
@@ -101,6 +106,6 @@ int main() {
 		POOL_CAPS(X)
 #undef X
 	}
-	printf("DONE cases %ld steps %ld mismatches %ld\n", cases, steps, mismatches);
+	printf("DONE cases %ld steps %ld mismatches %ld breaks %ld\n", cases, steps, mismatches, breaks);
 	return mismatches ? 1 : 0;
 }
